@@ -135,6 +135,7 @@ type Options struct {
 	KnownSeen    *sync.Map
 	ReachSeen    *sync.Map
 	LazyFP       bool
+	Root         []int // explore only the subtree under this decision prefix
 }
 
 func (p *pathState) nextDecision() (int, bool) {
